@@ -383,14 +383,18 @@ class ExecMixin(object):
             items = tuple((k, v) for (k, v) in base[1] if k != key) + ((key, value),)
             state.envs[frame.fid][target.value.id] = ("dictlit", items)
             return [(state, NORMAL)]
+        if base[0] == "opaquedict":
+            return [(state, NORMAL)]
         if base[0] in ("dictlit", "loopvar") and isinstance(target.value, ast.Name) and \
                 base[0] == "dictlit":
             # a local dict filled under computed keys (a mapping used as a work
             # list / classification): what it holds afterwards is not modelled,
             # and rules that follow the collection would misjudge it
-            raise AnalysisError("local dict %r is filled under computed keys (%s:%d): "
-                                "not modelled" % (target.value.id, frame.func.module,
-                                                  stmt.lineno))
+            # ... so it becomes opaque: reading an entry gives an unknown value,
+            # and *iterating* it (where what it holds matters) stops the analysis
+            state.envs[frame.fid][target.value.id] = (
+                "opaquedict", target.value.id, frame.func.module, stmt.lineno)
+            return [(state, NORMAL)]
         # registry / heap dict store
         key = plain(key)
         if value[0] == "obj":
